@@ -650,12 +650,28 @@ class Workspace(AbstractContextManager):
                 if rtype == "PropertyGroups":
                     # stored under their object, not in a flat container
                     continue
+                if rtype == "Types" and self._type_of_concatenated_data(key):
+                    # still the type of stored data that are loaded on demand
+                    continue
                 self._io_call(
                     H5Writer.remove_entity, key, rtype, parent=self, mode="r+"
                 )
 
         for key in rem_list:
             del referents[key]
+
+    def _type_of_concatenated_data(self, uid: uuid.UUID) -> bool:
+        """Check if a type is used by the concatenated data of a group."""
+        for reference in list(self._groups.values()):
+            group = reference()
+            if (
+                isinstance(group, Concatenator)
+                and group.concatenated_attributes is not None
+            ):
+                for attributes in group.concatenated_attributes["Attributes"]:
+                    if str2uuid(attributes.get("Type ID", "")) == uid:
+                        return True
+        return False
 
     def remove_recursively(self, entity: Entity | PropertyGroup):
         """Delete an entity and its children from the workspace and geoh5 recursively"""
